@@ -344,9 +344,9 @@ def ast_dump(tu):
 # Verilator XML
 # ------------------------------------------------------------------------------------------------
 
-def verilator_xml(files, top):
+def verilator_xml(files, top, defines=()):
     """Elaborated XML text for the given Verilog sources (paths relative to the repository)."""
-    key = 'vlxml|%s|%s' % (','.join(files), top)
+    key = 'vlxml|%s|%s|%s' % (','.join(files), top, ','.join(defines))
     got = _cache_get('vlxml', key)
     if got is not None:
         return got
@@ -354,7 +354,7 @@ def verilator_xml(files, top):
     try:
         out = os.path.join(scratch, 'o.xml')
         cmd = ['verilator', '--xml-only', '-Wno-fatal', '--top-module', top, '--xml-output', out,
-               '--Mdir', scratch] + [os.path.join(REPO, f) for f in files]
+               '--Mdir', scratch] + ['+define+' + d for d in defines] + [os.path.join(REPO, f) for f in files]
         r = _run(cmd)
         if r.returncode != 0 or not os.path.exists(out):
             raise AnalysisBroken('verilator --xml-only failed on %s: %s' % (files, (r.stderr or r.stdout)[-3000:]))
